@@ -16,7 +16,7 @@ R16.5 an extension is reported only after its payload length was validated
 R16.6 repacketizer carriage: count pass and parse pass agree, renumbering
       covers the collected extensions.
 """
-from .. import sx, cfg as cfgm, guards, templates as T, absint
+from .. import decide, sx, cfg as cfgm, guards, templates as T, absint
 from ..guards import I
 from ..compdb import AnalysisBroken
 
@@ -481,11 +481,35 @@ def r16_6(rep, prog):
             loops.append(sorted(T.show_atom(x) for x in known if x[0] == '<' and x[1][0] == 'local' and x[2] == ('param', f.param_index('end'))))
     ok = len(loops) == 2 and loops[0] == loops[1] and loops[0]
     (rep.holds if ok else rep.violated)('R16.6', '%s:out_range_impl both passes iterate i < end' % prog.config, f.where(), str(loops), **({} if ok else {'key': 'loops'}))
-    # renumbering: all_extensions[ext_count+j].frame += i-begin for j < frame_ext_count
-    ren = [n for n in f.all_nodes() if n[0] == 'cassign' and n[1] == '+' and sx.kind(sx.strip_paren(n[2])) == 'field' and sx.strip_paren(n[2])[3] == 'frame']
-    ok = len(ren) == 1 and sx.kind(sx.strip(ren[0][3])) == 'bin' and sx.strip(ren[0][3])[1] == '-' and sx.key(sx.strip(sx.strip(ren[0][3])[3])) == ('param', f.param_index('begin'))
-    (rep.holds if ok else rep.violated)('R16.6', '%s:out_range_impl renumbers collected extensions by i-begin' % prog.config, f.where(),
-                                        [sx.show(n) for n in ren][:2], **({} if ok else {'key': 'renumber'}))
+    # renumbering and selection: an extension stored with frame index k of the packet that starts at repacketizer frame i
+    # belongs to output frame k + i - begin, and is carried over only when that frame is selected (0 <= . < count)
+    pb = f.param_index('begin')
+    stores = [(b_, i_, n) for b_, i_, n in cf.find(lambda n: n[0] in ('assign', 'cassign') and sx.kind(sx.strip_paren(n[1] if n[0] == 'assign' else n[2])) == 'field'
+                                                  and sx.strip_paren(n[1] if n[0] == 'assign' else n[2])[3] == 'frame')]
+    inst = '%s:out_range_impl renumbers collected extensions by i-begin' % prog.config
+    inst2 = '%s:out_range_impl carries over only the extensions of the selected frames' % prog.config
+    if len(stores) != 1:
+        rep.violated('R16.6', inst, f.where(), '%d stores into the frame field' % len(stores), key='renumber')
+    else:
+        b_, i_, n = stores[0]
+        val = n[2] if n[0] == 'assign' else n[3]
+        vloc = sx.strip(val)
+        if n[0] == 'assign' and sx.kind(vloc) == 'local':
+            ds = [r for lv, r in decide.find_assign(f, vloc[1])]
+            val = ds[0] if len(ds) == 1 else val
+        has_begin = any(sx.kind(x) == 'bin' and x[1] == '-' and sx.key(sx.strip(x[3])) == ('param', pb) for x in sx.walk(val))
+        has_old = n[0] == 'cassign' or any(sx.kind(x) == 'field' and x[3] == 'frame' for x in sx.walk(val))
+        ok = has_begin and has_old
+        (rep.holds if ok else rep.violated)('R16.6', inst, '%s:%s' % (f.file, sx.line(n)), 'new frame = `%s`' % sx.show(val)[:60], **({} if ok else {'key': 'renumber'}))
+        facts = T.stable_facts(cf, b_, i_)
+        cnt_l = [l['id'] for l in f.locals.values() if l['name'] == 'count']
+        upper = any(a[0] == '<' and a[2] == ('local', cnt_l[0]) for a in facts) if cnt_l else False
+        lower = any(a[0] in ('<=', '<') and a[1][0] == 'int' and a[1][1] in (0, -1) for a in facts)
+        if upper and lower:
+            rep.holds('R16.6', inst2, '%s:%s' % (f.file, sx.line(n)), 'kept under %s' % [T.show_atom(a) for a in facts][:3])
+        else:
+            rep.violated('R16.6', inst2, '%s:%s' % (f.file, sx.line(n)), 'the renumbered frame is not tested against [0, count): an extension of a frame outside [begin, end) reaches the generator, which '
+                         'rejects it (OPUS_BAD_ARG for a valid range), and extensions stored with a first frame before `begin` are lost', key='selection')
     T.t_err(rep, 'R16.6', prog, f, {'opus_packet_extensions_parse', 'opus_packet_extensions_generate'}, {}, prog.config + ':')
 
 
